@@ -239,7 +239,27 @@ def c03(res):
                       "a case = one interval evaluation with its samples")
 
 
-CHECKS = {"C01": c01, "C03": c03, "C02": c02, "C04": c04, "C10": c10, "C14": c14, "C15": c15, "C20": c20}
+def c05(res):
+    wd = workdir("C05")
+    res.models.append(model_check("MC_Grad", "MC_Grad.cfg", wd, workers=8))
+    progs = gen_programs(res, wd)
+    trace = os.path.join(wd, "trace.ndjson")
+    if not run_recorder(res, "c05", [progs, res.tier, trace], wd):
+        return res.finish("recorder crashed")
+    n, rej = validate("Trace_C05", trace, wd, timeout=3000)
+    res.validated = n - len(rej)
+    res.evaluations = n
+    res.samples = sample_lines(trace, maxlen=3000)
+    res.add_rejects(trace, rej, lambda r, f: "ev=%s backend=%s fails=%s" % (r.get("ev"), r.get("backend", ""), "+".join(sorted(f))))
+    res.assumptions = ["exact clauses: integer sub-language, recomputed by TLC", "judged clauses: f64 dual-number reference in the harness, "
+                       "tolerance 2^-13 of the chain-rule terms per op; ill-conditioned whole programs (chain terms > 300) are skipped"]
+    return res.finish("exact programs (add sub mul neg square abs min max) with arbitrary integer seeds on VM<255>, VM<3>, JIT and the "
+                      "symbolic derivative; local obligations for every opcode and operand form on all-slots-exported tapes with "
+                      "non-unit seeds; smooth programs and shapes with affine / projective transforms against an f64 reference; "
+                      "a case = one record")
+
+
+CHECKS = {"C01": c01, "C03": c03, "C05": c05, "C02": c02, "C04": c04, "C10": c10, "C14": c14, "C15": c15, "C20": c20}
 
 
 def replay(prop, path):
